@@ -117,7 +117,11 @@ func TestC19Parameters(t *testing.T) {
 		for i := 0; i < nreq; i++ {
 			h := int64(rapid.IntRange(1, n).Draw(t, "reqHeight"))
 			resp := honest(h)
-			kind := rapid.SampledFrom([]string{"honest", "honest", "height", "field", "meta", "replay", "replay", "replay-raw"}).Draw(t, "kind")
+			kinds := []string{"honest", "honest", "height", "field", "meta", "replay", "replay", "replay-raw"}
+			if !ev.Excluded(sigParamsMetaUnhashed) {
+				kinds = append(kinds, "meta-unhashed")
+			}
+			kind := rapid.SampledFrom(kinds).Draw(t, "kind")
 			src := h
 			switch kind {
 			case "height":
@@ -136,6 +140,8 @@ func TestC19Parameters(t *testing.T) {
 				cp.Block.MaxGas = int64(rapid.IntRange(1, 1000).Draw(t, "maxGas"))
 				pb := cp.ToProto()
 				resp.Meta, _ = pb.Marshal()
+			case "meta-unhashed":
+				resp.Meta = alterUnhashedMeta(resp.Meta, rapid.IntRange(0, 2).Draw(t, "unhashedField"))
 			case "replay", "replay-raw":
 				// the honest answer of another height, preferably one this core has already verified
 				src = int64(rapid.IntRange(1, n).Draw(t, "replayOf"))
@@ -152,6 +158,9 @@ func TestC19Parameters(t *testing.T) {
 			rec.Label(fmt.Sprintf("%s:accepted=%v", kind, err == nil))
 			if want && err != nil {
 				ev.Violation(t, "honest-parameters-rejected", "parameters bound to the requested height %d were rejected: %v; trace=%v", h, err, trace)
+			}
+			if kind == "meta-unhashed" && err == nil {
+				ev.Violation(t, sigParamsMetaUnhashed, "CometBFT consensus parameters with an altered evidence / validator / version field were accepted for height %d: only block.max_bytes and block.max_gas are covered by the header's consensus hash; trace=%v", h, trace)
 			}
 			if !want && err == nil {
 				ev.Violation(t, "unbound-parameters", "a %s response (taken from height %d, height field %d) was accepted for height %d although the on-chain parameters there differ; trace=%v", kind, src, resp.Height, h, trace)
@@ -174,4 +183,53 @@ func TestC19Parameters(t *testing.T) {
 func mustParams(meta []byte) (pb cmtproto.ConsensusParams) {
 	_ = pb.Unmarshal(meta)
 	return pb
+}
+
+// sigParamsMetaUnhashed: fields of the CometBFT consensus parameters that the provider hands over (Parameters.Meta) and
+// the header's ConsensusHash does not cover (it hashes block.max_bytes and block.max_gas only).
+const sigParamsMetaUnhashed = "unbound-parameters-meta"
+
+func alterUnhashedMeta(meta []byte, which int) []byte {
+	pb := mustParams(meta)
+	cp := cmttypes.ConsensusParamsFromProto(pb)
+	switch which {
+	case 0:
+		cp.Evidence.MaxAgeNumBlocks++
+	case 1:
+		cp.Validator.PubKeyTypes = append(append([]string{}, cp.Validator.PubKeyTypes...), cmttypes.ABCIPubKeyTypeSecp256k1)
+	default:
+		cp.Version.App++
+	}
+	out := cp.ToProto()
+	b, _ := out.Marshal()
+	return b
+}
+
+// TestC19KFParametersMeta: deterministic probe of the finding.
+func TestC19KFParametersMeta(t *testing.T) {
+	rec := ev.New("C19", "TestC19KFParametersMeta", "deterministic probe of finding "+sigParamsMetaUnhashed+": honest parameters of a height with evidence.max_age_num_blocks+1 / an added validator key type / version.app+1 in the CometBFT parameters", "")
+	defer rec.Flush()
+	cmt := cmttypes.DefaultConsensusParams()
+	pb := cmt.ToProto()
+	meta, _ := pb.Marshal()
+	p := consensusGenesis.Parameters{MaxTxSize: 32768, MaxBlockSize: 1 << 20, MaxEvidenceSize: 1 << 16, StateCheckpointInterval: 100, GasCosts: transaction.Costs{consensusGenesis.GasOpTxByte: 1}}
+	fac := &fakeParamsFactory{byHeight: map[int64]*consensusGenesis.Parameters{5: &p}}
+	lb := &cmttypes.LightBlock{SignedHeader: &cmttypes.SignedHeader{Header: &cmttypes.Header{Height: 5, ConsensusHash: cmt.Hash()}}}
+	core := stateless.NewCore(nil, nil, stateless.Config{})
+	core.SetQueriers(nil, fac, nil)
+	ctx := context.Background()
+	if err := stateless.VerifVerifyParameters(ctx, core, &consensus.Parameters{Height: 5, Parameters: p, Meta: meta}, lb); err != nil {
+		ev.Infra(t, "honest parameters rejected: %v", err)
+	}
+	var accepted []string
+	for i, name := range []string{"evidence.max_age_num_blocks+1", "validator.pub_key_types+secp256k1", "version.app+1"} {
+		err := stateless.VerifVerifyParameters(ctx, core, &consensus.Parameters{Height: 5, Parameters: p, Meta: alterUnhashedMeta(meta, i)}, lb)
+		rec.Case(true, ev.Fingerprint(name), fmt.Sprintf("%s: accepted=%v", name, err == nil))
+		if err == nil {
+			accepted = append(accepted, name)
+		}
+	}
+	if len(accepted) > 0 {
+		ev.Violation(t, sigParamsMetaUnhashed, "provider parameters with altered CometBFT fields accepted: %v", accepted)
+	}
 }
